@@ -14,18 +14,22 @@ fn run<const N: usize>(p: &Prog, pt: &[f32]) -> (Vec<f32>, Vec<f32>) {
     let b = (0..o.len()).map(|i| o[i][1]).collect();
     (a, b)
 }
+fn runjit(p: &Prog, pt: &[f32]) -> Vec<f32> {
+    let f = vharness::evalx::jit_fn(p).unwrap();
+    vharness::evalx::point_trace(&f, pt).out
+}
 fn main() {
     let args: Vec<String> = std::env::args().collect();
     let id: i64 = args[2].parse().unwrap();
     for l in std::fs::read_to_string(&args[1]).unwrap().lines() {
         let r: serde_json::Value = serde_json::from_str(l).unwrap();
         if r["id"].as_i64() != Some(id) { continue; }
-        let n = r["n"].as_u64().unwrap() as usize;
-        let ssa: Vec<GOp> = r["ssa"].as_array().unwrap().iter().map(|o| { let a = o.as_array().unwrap();
+        let n = r["n"].as_u64().unwrap_or(12) as usize;
+        let ssa: Vec<GOp> = (if r["ssa"].is_null() { &r["parent"]["ssa"] } else { &r["ssa"] }).as_array().unwrap().iter().map(|o| { let a = o.as_array().unwrap();
             GOp::new(a[0].as_u64().unwrap() as u8, a[1].as_str().unwrap(), a[2].as_i64().unwrap(), a[3].as_i64().unwrap(), a[4].as_i64().unwrap(), a[5].as_i64().unwrap()) }).collect();
         let nvars = ssa.iter().filter(|g| g.class == 1).map(|g| g.a + 1).max().unwrap_or(0) as usize;
-        for e in r["evals"].as_array().unwrap() {
-            let pt: Vec<f32> = e["in"].as_array().unwrap().iter().map(|b| unbits(b.as_i64().unwrap())).collect();
+        let pts: Vec<Vec<f32>> = if r["evals"].is_null() { vec![std::env::args().skip(3).map(|s| unbits(s.parse::<i64>().unwrap())).collect()] } else { r["evals"].as_array().unwrap().iter().map(|e| e["in"].as_array().unwrap().iter().map(|b| unbits(b.as_i64().unwrap())).collect()).collect() };
+        for pt in pts {
             let reference = ssa_eval(&ssa, &pt);
             // ops in evaluation order
             for g in ssa.iter().rev().filter(|g| g.class != 0) {
@@ -53,7 +57,9 @@ fn main() {
                 let (a, b) = with_n!(n, run(&p, &pt));
                 let rv = reference.vals[g.out as usize].unwrap();
                 let same = |x: f32, y: f32| x.to_bits() == y.to_bits() || (x.is_nan() && y.is_nan());
-                if !same(a[0], rv) || !same(b[0], rv) {
+                let jv = runjit(&p, &pt);
+                if !same(a[0], rv) || !same(b[0], rv) || !same(jv[0], rv) {
+                    println!("jit {} ({:#x}) vs ref {:#x}", jv[0], jv[0].to_bits(), rv.to_bits());
                     let arg = |i: i64| if i >= 0 { reference.vals[i as usize] } else { None };
                     println!("first bad op {:?}: operands {:?} {:?} imm {} ; ref {} point {} slice {}", g, arg(g.a), arg(g.b), unbits(g.imm), rv, a[0], b[0]);
                     break;
